@@ -1012,127 +1012,131 @@ def run(repo, chk):
     chk.floor("R-C11-1", 40)
 
     # ---------------------------------------------------------------- R-C11-1b setattr targets
-    amap = ActionAttrMap(repo)
-    ini = amap.ini
-    chk.fn(ini)
-    pubv, intv, dyn = action_vocabulary(repo, uni)
-    rca = repo.func(CTRL, "ControlAction.run_control_action")
-    sa = [c for c in calls(rca) if isinstance(c.func, ast.Name) and c.func.id == "setattr"]
-    chk.expect(len(sa) == 1 and len(sa[0].args) == 3 and unparse(through_temporaries(rca, sa[0].args[1])) == "self._private_attribute", "R-C11-1b",
-               "ControlAction.run_control_action writes setattr(target, self._private_attribute, value)", loc(rca), found=[norm(c) for c in sa])
-    rci = repo.func(CTRL, "_InternalControlAction.run_control_action")
-    sa = [c for c in calls(rci) if isinstance(c.func, ast.Name) and c.func.id == "setattr"]
-    chk.expect(len(sa) == 1 and len(sa[0].args) == 3 and unparse(through_temporaries(rci, sa[0].args[1])) == "self._internal_attr", "R-C11-1b",
-               "_InternalControlAction.run_control_action writes setattr(target, self._internal_attr, value)", loc(rci), found=[norm(c) for c in sa])
-    chk.sample({"ControlAction_attribute_map": {v: amap(v) for v in sorted(set(pubv) | {"status", "setting", "leak_status"})}, "attribute_strings_passed": sorted(pubv), "internal_attribute_strings": sorted(intv),
-                "dynamic_sites": [f.qual.split("::")[1] for f, c in dyn]})
-    for v, sites in sorted(pubv.items()):
-        priv = amap(v)
-        f, c = sites[0]
-        ok = priv in all_rt
-        chk.expect(ok, "R-C11-1b", "ControlAction attribute %r is mapped to a run-time field" % v, loc(f.node, c),
-                   "ControlAction(obj, %r, v) writes setattr(obj, %r, v); %r is %s, so a control with this action changes the model definition "
-                   "(to_dict differs after the run and reset_initial_values does not restore it)" % (v, priv, priv, D.get(priv, "not a run-time field")),
-                   expected="one of the run-time fields (_user_status, _setting, _leak_status)", found=priv)
-        if ok:
-            for k in ELEMENT_CLASSES:
-                if priv in RT.get(k, ()):
-                    written_rt.setdefault((k, priv), loc(f.node, c))
-    for v, sites in sorted(intv.items()):
-        f, c = sites[0]
-        chk.expect(v in all_rt, "R-C11-1b", "_InternalControlAction field %r is a run-time field" % v, loc(f.node, c), found=D.get(v))
-        if v in all_rt:
-            for k in ELEMENT_CLASSES:
-                if v in RT.get(k, ()):
-                    written_rt.setdefault((k, v), loc(f.node, c))
-    for f, c in dyn:
-        chk.assume("attribute passed at %s (%s) comes from INP rule text: assumed in {status, setting}" % (loc(f.node, c), norm(c)))
-    chk.floor("R-C11-1b", 6)
+    with chk.part("R-C11-1b setattr targets"):
+        amap = ActionAttrMap(repo)
+        ini = amap.ini
+        chk.fn(ini)
+        pubv, intv, dyn = action_vocabulary(repo, uni)
+        rca = repo.func(CTRL, "ControlAction.run_control_action")
+        sa = [c for c in calls(rca) if isinstance(c.func, ast.Name) and c.func.id == "setattr"]
+        chk.expect(len(sa) == 1 and len(sa[0].args) == 3 and unparse(through_temporaries(rca, sa[0].args[1])) == "self._private_attribute", "R-C11-1b",
+                   "ControlAction.run_control_action writes setattr(target, self._private_attribute, value)", loc(rca), found=[norm(c) for c in sa])
+        rci = repo.func(CTRL, "_InternalControlAction.run_control_action")
+        sa = [c for c in calls(rci) if isinstance(c.func, ast.Name) and c.func.id == "setattr"]
+        chk.expect(len(sa) == 1 and len(sa[0].args) == 3 and unparse(through_temporaries(rci, sa[0].args[1])) == "self._internal_attr", "R-C11-1b",
+                   "_InternalControlAction.run_control_action writes setattr(target, self._internal_attr, value)", loc(rci), found=[norm(c) for c in sa])
+        chk.sample({"ControlAction_attribute_map": {v: amap(v) for v in sorted(set(pubv) | {"status", "setting", "leak_status"})}, "attribute_strings_passed": sorted(pubv), "internal_attribute_strings": sorted(intv),
+                    "dynamic_sites": [f.qual.split("::")[1] for f, c in dyn]})
+        for v, sites in sorted(pubv.items()):
+            priv = amap(v)
+            f, c = sites[0]
+            ok = priv in all_rt
+            chk.expect(ok, "R-C11-1b", "ControlAction attribute %r is mapped to a run-time field" % v, loc(f.node, c),
+                       "ControlAction(obj, %r, v) writes setattr(obj, %r, v); %r is %s, so a control with this action changes the model definition "
+                       "(to_dict differs after the run and reset_initial_values does not restore it)" % (v, priv, priv, D.get(priv, "not a run-time field")),
+                       expected="one of the run-time fields (_user_status, _setting, _leak_status)", found=priv)
+            if ok:
+                for k in ELEMENT_CLASSES:
+                    if priv in RT.get(k, ()):
+                        written_rt.setdefault((k, priv), loc(f.node, c))
+        for v, sites in sorted(intv.items()):
+            f, c = sites[0]
+            chk.expect(v in all_rt, "R-C11-1b", "_InternalControlAction field %r is a run-time field" % v, loc(f.node, c), found=D.get(v))
+            if v in all_rt:
+                for k in ELEMENT_CLASSES:
+                    if v in RT.get(k, ()):
+                        written_rt.setdefault((k, v), loc(f.node, c))
+        for f, c in dyn:
+            chk.assume("attribute passed at %s (%s) comes from INP rule text: assumed in {status, setting}" % (loc(f.node, c), norm(c)))
+        chk.floor("R-C11-1b", 6)
 
     # ---------------------------------------------------------------- R-C11-2 options restored by _Skeletonize
-    if repo.exists(SKEL):
-        si = repo.func(SKEL, "_Skeletonize.__init__")
-        chk.fn(si)
-        stores = [(r, a, n) for r, a, e, via, n in writes(si) if "options" in unparse(r)]
-        seq = [n for n in walk(si) if isinstance(n, ast.stmt)]
-        for recv, attr, node in stores:
-            tgt = "%s.%s" % (unparse(recv), attr)
-            if isinstance(node, ast.Assign) and isinstance(node.value, ast.Name):
-                # restoring store: the name must have been saved from the same attribute earlier
-                saved = [s for s in seq if isinstance(s, ast.Assign) and isinstance(s.targets[0], ast.Name) and s.targets[0].id == node.value.id
-                         and unparse(s.value) == tgt and s.lineno < node.lineno]
-                chk.expect(bool(saved), "R-C11-2", "_Skeletonize.__init__ restores %s from the value saved before" % tgt, loc(si, node), found=norm(node))
-            else:
-                later = [s for r2, a2, e2, v2, s in writes(si) if "%s.%s" % (unparse(r2), a2) == tgt and s.lineno > node.lineno
-                         and isinstance(s, ast.Assign) and isinstance(s.value, ast.Name)]
-                top = [s for s in si.body]
-                on_all_paths = any(s in top for s in later) and node in top
-                chk.expect(bool(later) and on_all_paths, "R-C11-2", "_Skeletonize.__init__: the temporary store %s is followed by a restore on the straight-line path" % norm(node),
-                           loc(si, node), "options changed for the internal simulation must be restored", found=[norm(s) for s in later])
-        chk.floor("R-C11-2", 2)
+    with chk.part("R-C11-2 options restored by _Skeletonize"):
+        if repo.exists(SKEL):
+            si = repo.func(SKEL, "_Skeletonize.__init__")
+            chk.fn(si)
+            stores = [(r, a, n) for r, a, e, via, n in writes(si) if "options" in unparse(r)]
+            seq = [n for n in walk(si) if isinstance(n, ast.stmt)]
+            for recv, attr, node in stores:
+                tgt = "%s.%s" % (unparse(recv), attr)
+                if isinstance(node, ast.Assign) and isinstance(node.value, ast.Name):
+                    # restoring store: the name must have been saved from the same attribute earlier
+                    saved = [s for s in seq if isinstance(s, ast.Assign) and isinstance(s.targets[0], ast.Name) and s.targets[0].id == node.value.id
+                             and unparse(s.value) == tgt and s.lineno < node.lineno]
+                    chk.expect(bool(saved), "R-C11-2", "_Skeletonize.__init__ restores %s from the value saved before" % tgt, loc(si, node), found=norm(node))
+                else:
+                    later = [s for r2, a2, e2, v2, s in writes(si) if "%s.%s" % (unparse(r2), a2) == tgt and s.lineno > node.lineno
+                             and isinstance(s, ast.Assign) and isinstance(s.value, ast.Name)]
+                    top = [s for s in si.body]
+                    on_all_paths = any(s in top for s in later) and node in top
+                    chk.expect(bool(later) and on_all_paths, "R-C11-2", "_Skeletonize.__init__: the temporary store %s is followed by a restore on the straight-line path" % norm(node),
+                               loc(si, node), "options changed for the internal simulation must be restored", found=[norm(s) for s in later])
+            chk.floor("R-C11-2", 2)
 
     # ---------------------------------------------------------------- R-C11-3 reset coverage
-    rev = ResetEval(repo, ct)
-    rs, reset = rev.fn, rev.table()
-    chk.fn(rs)
-    chk.sample({"reset_table": {k: v for k, v in reset.items() if k in ("Junction", "Tank", "Pipe", "WaterNetworkModel")}})
-    chk.extra["runtime_fields_written"] = sorted("%s.%s" % k for k in written_rt)
-    EXEMPT = {}
-    # (class, field): reason  -- fields a run can write that need no reset; each reason is re-checked structurally
-    if not any(isinstance(n, ast.FunctionDef) and n.name == "add_leak" for n in ct.classes["Reservoir"].body):
-        EXEMPT[("Reservoir", "_leak_status")] = ("Reservoir has no add_leak and no leak model (leak builders range over junctions and tanks); only a hand-made "
-                                                 "ControlAction(reservoir, 'leak_status', ..) could set it and nothing reads it")
-    for (k, fld), where in sorted(written_rt.items()):
-        if (k, fld) in EXEMPT:
-            chk.ok("R-C11-3", "%s.%s needs no reset: %s" % (k, fld, EXEMPT[(k, fld)]), where)
-            continue
-        chk.expect(fld in reset.get(k, {}), "R-C11-3", "reset_initial_values restores %s.%s (written by a run at %s)" % (k, fld, where.split(":")[0]), loc(rs),
-                   "a run writes %s.%s (%s) but reset_initial_values does not assign it in the loop over %s: a second run starts from the first run's state" % (k, fld, where, k),
-                   expected="%s.%s = <initial value>" % (k, fld), found=sorted(reset.get(k, {})))
-    # values: compared as symbolic values over the instance's own fields (the reset executed for one instance of each class), so the
-    # name of the loop variable, temporaries, merged / nested / reordered loops do not matter
-    EXPECT = {"_user_status": ("initial_status", "x.initial_status"), "_setting": ("initial_setting", "x.initial_setting"),
-              "_internal_status": ("LinkStatus.Active", "LinkStatus.Active"),
-              "_is_isolated": ("False", "False"), "_leak_status": ("False", "False"), "_flow": ("None", "None"), "_prev_setting": ("None", "None"),
-              "_demand": ("None", "None"), "_leak_demand": ("None", "None"), "_pressure": ("None", "None")}
-    for k in sorted(rev.inst):
-        inst = rev.inst[k]
-        for fld in sorted(inst.fields):
-            if fld in EXPECT:
-                want = rev.expected(k, EXPECT[fld][1])
-                chk.expect(same_value(rev.ex, inst.fields[fld], want), "R-C11-3", "reset value of %s.%s is %s" % (k, fld, EXPECT[fld][0]), loc(rs),
-                           found=rev.ex.text(inst.fields[fld]), expected=rev.ex.text(want))
-    tank = rev.inst["Tank"]
-    th = tank.fields.get("_head")
-    chk.expect(th is not None and rev.ex.same(th, rev.expected("Tank", "x.init_level + x.elevation")), "R-C11-3", "reset value of Tank._head is init_level + elevation",
-               loc(rs), found=rev.ex.text(th))
-    chk.expect("_prev_head" in tank.fields and th is not None and rev.ex.same(tank.fields["_prev_head"], th), "R-C11-3",
-               "reset value of Tank._prev_head is the reset head", loc(rs), found=rev.ex.text(tank.fields.get("_prev_head")))
-    wm = rev.model
-    chk.expect(wm.get("sim_time") in (0, 0.0) and wm.get("sim_time") is not False and "_prev_sim_time" in wm and wm["_prev_sim_time"] is None, "R-C11-3",
-               "reset sets sim_time = 0 and _prev_sim_time = None", loc(rs), found=reset.get("WaterNetworkModel"))
-    # controls
-    chk.expect(rev.resets_controls, "R-C11-3", "reset_initial_values calls _reset() on every control", loc(rs))
-    for cname, c in sorted(repo.classes(CTRL).items()):
-        meths = {n.name: n for n in c.body if isinstance(n, ast.FunctionDef)}
-        if "evaluate" in meths:
-            state = {a.attr for a in walk(meths["evaluate"]) if isinstance(a, ast.Attribute) and isinstance(a.ctx, ast.Store)
-                     and isinstance(a.value, ast.Name) and a.value.id == "self" and a.attr not in ("_backtrack",)}
-            for fld in sorted(state):
+    with chk.part("R-C11-3 reset coverage"):
+        rev = ResetEval(repo, ct)
+        rs, reset = rev.fn, rev.table()
+        chk.fn(rs)
+        chk.sample({"reset_table": {k: v for k, v in reset.items() if k in ("Junction", "Tank", "Pipe", "WaterNetworkModel")}})
+        chk.extra["runtime_fields_written"] = sorted("%s.%s" % k for k in written_rt)
+        EXEMPT = {}
+        # (class, field): reason  -- fields a run can write that need no reset; each reason is re-checked structurally
+        if not any(isinstance(n, ast.FunctionDef) and n.name == "add_leak" for n in ct.classes["Reservoir"].body):
+            EXEMPT[("Reservoir", "_leak_status")] = ("Reservoir has no add_leak and no leak model (leak builders range over junctions and tanks); only a hand-made "
+                                                     "ControlAction(reservoir, 'leak_status', ..) could set it and nothing reads it")
+        for (k, fld), where in sorted(written_rt.items()):
+            if (k, fld) in EXEMPT:
+                chk.ok("R-C11-3", "%s.%s needs no reset: %s" % (k, fld, EXEMPT[(k, fld)]), where)
+                continue
+            chk.expect(fld in reset.get(k, {}), "R-C11-3", "reset_initial_values restores %s.%s (written by a run at %s)" % (k, fld, where.split(":")[0]), loc(rs),
+                       "a run writes %s.%s (%s) but reset_initial_values does not assign it in the loop over %s: a second run starts from the first run's state" % (k, fld, where, k),
+                       expected="%s.%s = <initial value>" % (k, fld), found=sorted(reset.get(k, {})))
+        # values: compared as symbolic values over the instance's own fields (the reset executed for one instance of each class), so the
+        # name of the loop variable, temporaries, merged / nested / reordered loops do not matter
+        EXPECT = {"_user_status": ("initial_status", "x.initial_status"), "_setting": ("initial_setting", "x.initial_setting"),
+                  "_internal_status": ("LinkStatus.Active", "LinkStatus.Active"),
+                  "_is_isolated": ("False", "False"), "_leak_status": ("False", "False"), "_flow": ("None", "None"), "_prev_setting": ("None", "None"),
+                  "_demand": ("None", "None"), "_leak_demand": ("None", "None"), "_pressure": ("None", "None")}
+        for k in sorted(rev.inst):
+            inst = rev.inst[k]
+            for fld in sorted(inst.fields):
+                if fld in EXPECT:
+                    want = rev.expected(k, EXPECT[fld][1])
+                    chk.expect(same_value(rev.ex, inst.fields[fld], want), "R-C11-3", "reset value of %s.%s is %s" % (k, fld, EXPECT[fld][0]), loc(rs),
+                               found=rev.ex.text(inst.fields[fld]), expected=rev.ex.text(want))
+        tank = rev.inst["Tank"]
+        th = tank.fields.get("_head")
+        chk.expect(th is not None and rev.ex.same(th, rev.expected("Tank", "x.init_level + x.elevation")), "R-C11-3", "reset value of Tank._head is init_level + elevation",
+                   loc(rs), found=rev.ex.text(th))
+        chk.expect("_prev_head" in tank.fields and th is not None and rev.ex.same(tank.fields["_prev_head"], th), "R-C11-3",
+                   "reset value of Tank._prev_head is the reset head", loc(rs), found=rev.ex.text(tank.fields.get("_prev_head")))
+        wm = rev.model
+        chk.expect(wm.get("sim_time") in (0, 0.0) and wm.get("sim_time") is not False and "_prev_sim_time" in wm and wm["_prev_sim_time"] is None, "R-C11-3",
+                   "reset sets sim_time = 0 and _prev_sim_time = None", loc(rs), found=reset.get("WaterNetworkModel"))
+        # controls
+        chk.expect(rev.resets_controls, "R-C11-3", "reset_initial_values calls _reset() on every control", loc(rs))
+        for cname, c in sorted(repo.classes(CTRL).items()):
+            meths = {n.name: n for n in c.body if isinstance(n, ast.FunctionDef)}
+            if "evaluate" in meths:
+                state = {a.attr for a in walk(meths["evaluate"]) if isinstance(a, ast.Attribute) and isinstance(a.ctx, ast.Store)
+                         and isinstance(a.value, ast.Name) and a.value.id == "self" and a.attr not in ("_backtrack",)}
+                for fld in sorted(state):
+                    r_ = meths.get("_reset")
+                    ok = r_ is not None and any(isinstance(a, ast.Attribute) and isinstance(a.ctx, ast.Store) and a.attr == fld for a in walk(r_))
+                    chk.expect(ok, "R-C11-3", "%s._reset restores %s (written by evaluate)" % (cname, fld), loc(CTRL, meths["evaluate"]))
+            if cname in ("AndCondition", "OrCondition"):
                 r_ = meths.get("_reset")
-                ok = r_ is not None and any(isinstance(a, ast.Attribute) and isinstance(a.ctx, ast.Store) and a.attr == fld for a in walk(r_))
-                chk.expect(ok, "R-C11-3", "%s._reset restores %s (written by evaluate)" % (cname, fld), loc(CTRL, meths["evaluate"]))
-        if cname in ("AndCondition", "OrCondition"):
-            r_ = meths.get("_reset")
-            subs = {unparse(cc.func.value) for cc in calls(r_) if last_attr(cc) == "_reset"} if r_ is not None else set()
-            chk.expect(subs == {"self._condition_1", "self._condition_2"}, "R-C11-3", "%s._reset recurses into both sub-conditions" % cname, loc(CTRL, c), found=sorted(subs))
-        if cname in ("ControlBase", "Control", "Rule") and "_reset" in meths:
-            chk.expect(any(unparse(cc.func.value) == "self._condition" for cc in calls(meths["_reset"]) if last_attr(cc) == "_reset"), "R-C11-3",
-                       "%s._reset resets its condition" % cname, loc(CTRL, meths["_reset"]))
-    chk.floor("R-C11-3", 30)
+                subs = {unparse(cc.func.value) for cc in calls(r_) if last_attr(cc) == "_reset"} if r_ is not None else set()
+                chk.expect(subs == {"self._condition_1", "self._condition_2"}, "R-C11-3", "%s._reset recurses into both sub-conditions" % cname, loc(CTRL, c), found=sorted(subs))
+            if cname in ("ControlBase", "Control", "Rule") and "_reset" in meths:
+                chk.expect(any(unparse(cc.func.value) == "self._condition" for cc in calls(meths["_reset"]) if last_attr(cc) == "_reset"), "R-C11-3",
+                           "%s._reset resets its condition" % cname, loc(CTRL, meths["_reset"]))
+        chk.floor("R-C11-3", 30)
 
     # ---------------------------------------------------------------- R-C11-1c / R-C11-4 reset vs definition setters
-    setter_reset_agreement(repo, chk, ct, D)
+    with chk.part("R-C11-1c / R-C11-4 reset vs definition setters"):
+        setter_reset_agreement(repo, chk, ct, D)
 
 
 _CHAIN = ("        self._private_attribute = attribute\n        if attribute == 'status':\n            self._private_attribute = '_user_status'\n"
